@@ -172,7 +172,9 @@ PeerF(P, a, called) ==
              got   == {h \in called : Acks(P, P.reg[h])}
              P1    == [P EXCEPT !.now = P.now + WaitFor(P, conns)]
          IN [st |-> P1,
-             res |-> IF got # {} THEN Ok(got) ELSE Err("nohosts"),
+             \* an error only when no host could be provided: "nohosts" if nobody could even be asked,
+             \* "hosterrors" if every host that was asked failed or did not answer in time
+             res |-> IF got # {} THEN Ok(got) ELSE IF called = {} THEN Err("nohosts") ELSE Err("hosterrors"),
              calls |-> {<<P.reg[h], "vipnode_whitelist", a.ident>> : h \in called}]
 
 -----------------------------------------------------------------------------
